@@ -7,7 +7,7 @@ CONSTANTS
   Noises = {"default", "scalar", "diag"}
   Feats = {"named", "default"}
   INames = {"kind", "custom"}
-  Origins = {"fit", "hand"}
+  Origins = {"fit", "fit_mem2", "fit_mem3", "hand", "edited"}
   NameIsKindOK = TRUE
   UniSourcesOK = TRUE
   ScalarShapeOK = TRUE
